@@ -7,3 +7,18 @@ void c14_pvars(struct espconn *conn, int *step, int *type, int *cur, int *matche
   if (!p) { *step = *type = *cur = *matched = *offset = -1; return; }
   *step = p->step; *type = p->type; *cur = p->current_var; *matched = p->matched; *offset = p->offset;
 }
+
+/* the 64-bit host pads TrivialHttpParserVars behind intval[12]; on the 32-bit target intval is the last thing in the
+ * allocation.  A canary in that padding makes a write past intval visible on the host. */
+#include <stddef.h>
+void c14_pv_canary_set(struct espconn *conn) {
+  unsigned char *p = conn ? (unsigned char *)conn->reverse : NULL;
+  if (!p) return;
+  for (size_t i = offsetof(TrivialHttpParserVars, intval) + sizeof(((TrivialHttpParserVars *)0)->intval); i < sizeof(TrivialHttpParserVars); i++) p[i] = 0xC5;
+}
+int c14_pv_canary_ok(struct espconn *conn) {
+  unsigned char *p = conn ? (unsigned char *)conn->reverse : NULL;
+  if (!p) return 1;
+  for (size_t i = offsetof(TrivialHttpParserVars, intval) + sizeof(((TrivialHttpParserVars *)0)->intval); i < sizeof(TrivialHttpParserVars); i++) if (p[i] != 0xC5) return 0;
+  return 1;
+}
